@@ -438,8 +438,9 @@ def ob_ladder():
                 # left-associative fold: ((e0 op1 e1) op2 e2)
                 v = pr.value
                 for op in reversed(ops):
-                    if type(v) is not table[op]:
-                        bad.append({'rule': rule, 'tree': repr(v)[:80], 'operator': str(op), 'documented_class': table[op].__name__}); break
+                    if op not in table or type(v) is not table[op]:
+                        bad.append({'rule': rule, 'tree': repr(v)[:80], 'operator': str(op),
+                                    'documented_class': table[op].__name__ if op in table else 'operator not at this level'}); break
                     if isinstance(v.right, (a.Binary,)) and type(v.right) in table.values():
                         bad.append({'rule': rule, 'problem': 'groups to the right', 'tree': repr(v)[:120]}); break
                     v = v.left
